@@ -154,8 +154,9 @@ func ruleCodeTable(c *chk.Ctx, d *dispatchModel) {
 		c.Undecided("TABLE.codes", nil, "envelope parser", 0, "message-list parser not resolved")
 	} else {
 		n := 0
-		for _, r := range ir.Returns(listParser) {
-			v := ir.ReturnResult(r, 0)
+		for _, ra := range effectiveResults(c, listParser, 0, 0) {
+			r := ra.r
+			v := ir.ReturnResult(r, ra.idx)
 			if ir.IsNilConst(v) {
 				continue
 			}
@@ -404,6 +405,60 @@ func ruleIDHandling(c *chk.Ctx) {
 				}
 			}
 			ok = cmp == 1 && other == 0 && allRet
+		}
+		if !ok {
+			// or a length test plus a byte-by-byte loop against the constant text:
+			// len(msg) == len(K) ∧ ∀i. msg[i] == K[i], K == "null"
+			lenOK, loopOK, other := false, false, 0
+			ir.Instrs(f, func(ins ssa.Instruction) {
+				bo, isBO := ins.(*ssa.BinOp)
+				if !isBO {
+					return
+				}
+				switch bo.Op {
+				case token.EQL, token.NEQ:
+					if _, isLen := ir.LenOf(bo.X); isLen {
+						if k, isC := ir.ConstInt(bo.Y); isC && k == 4 {
+							lenOK = true
+							return
+						}
+					}
+					for _, pr := range [][2]ssa.Value{{bo.X, bo.Y}, {bo.Y, bo.X}} {
+						u, isU := pr[0].(*ssa.UnOp)
+						var kx, kidx ssa.Value
+						switch lk := pr[1].(type) {
+						case *ssa.Lookup:
+							kx, kidx = lk.X, lk.Index
+						case *ssa.Index:
+							kx, kidx = lk.X, lk.Index
+						}
+						if !isU || kx == nil {
+							continue
+						}
+						ia, isIA := u.X.(*ssa.IndexAddr)
+						ks, isK := constString(kx)
+						if isIA && isK && ks == "null" && ia.Index == kidx {
+							if _, fromParam := ia.X.(*ssa.Parameter); fromParam {
+								loopOK = true
+								return
+							}
+						}
+					}
+					other++
+				case token.LSS:
+					if k, isC := ir.ConstInt(bo.Y); isC && k == 4 {
+						return // the loop bound i < len(K)
+					}
+					other++
+				case token.ADD:
+					return // i++
+				default:
+					other++
+				}
+			})
+			if lenOK && loopOK && other == 0 {
+				ok = true
+			}
 		}
 		c.Check(ok, "TABLE.null", f, "null token", f.Pos(), "exactly the 4-byte token null counts as absent", fmt.Sprintf("the null predicate tests len %v and bytes %v, not exactly the token null", lens, bytes))
 	}
@@ -1025,27 +1080,52 @@ func ruleParseRequests(c *chk.Ctx) {
 			return
 		}
 		if ia, ok := st.Addr.(*ssa.IndexAddr); ok {
-			// out[i] = &ParsedRequest{...} where the literal reads reqs[i]
-			if al, ok := st.Val.(*ssa.Alloc); ok {
-				for _, ref := range *al.Referrers() {
-					fa, ok := ref.(*ssa.FieldAddr)
+			// out[i] = &ParsedRequest{...} where the literal reads reqs[i]; the literal may be
+			// built by a private helper of the member, which is then reqs[i] at the call
+			al, _ := st.Val.(*ssa.Alloc)
+			var viaCall *ssa.Call
+			if call, isCall := st.Val.(*ssa.Call); isCall && al == nil {
+				if g := call.Call.StaticCallee(); g != nil && c.P.InRepo[g] && !ir.Exported(g) && len(g.Blocks) > 0 {
+					rets := ir.Returns(g)
+					if len(rets) == 1 && len(rets[0].Results) == 1 {
+						al, _ = rets[0].Results[0].(*ssa.Alloc)
+						viaCall = call
+					}
+				}
+			}
+			if al == nil {
+				return
+			}
+			for _, ref := range *al.Referrers() {
+				fa, ok := ref.(*ssa.FieldAddr)
+				if !ok {
+					continue
+				}
+				for _, r2 := range *fa.Referrers() {
+					s2, ok := r2.(*ssa.Store)
 					if !ok {
 						continue
 					}
-					for _, r2 := range *fa.Referrers() {
-						s2, ok := r2.(*ssa.Store)
-						if !ok {
-							continue
-						}
-						if ir.FieldVar(fa).Name() == "Error" && chk.LoadsField(s2.Val, c.M.JErr) {
-							src := s2.Val.(*ssa.UnOp).X.(*ssa.FieldAddr).X
-							if ld, ok := src.(*ssa.UnOp); ok {
-								if ia2, ok := ld.X.(*ssa.IndexAddr); ok && ia2.Index == ia.Index {
-									okIdx = true
+					if ir.FieldVar(fa).Name() == "Error" && chk.LoadsField(s2.Val, c.M.JErr) {
+						src := s2.Val.(*ssa.UnOp).X.(*ssa.FieldAddr).X
+						if viaCall != nil {
+							prm, isP := src.(*ssa.Parameter)
+							if !isP {
+								continue
+							}
+							src = nil
+							for k, q := range prm.Parent().Params {
+								if q == prm && k < len(viaCall.Call.Args) {
+									src = viaCall.Call.Args[k]
 								}
 							}
-							okErr = true
 						}
+						if ld, ok := src.(*ssa.UnOp); ok {
+							if ia2, ok := ld.X.(*ssa.IndexAddr); ok && ia2.Index == ia.Index {
+								okIdx = true
+							}
+						}
+						okErr = true
 					}
 				}
 			}
@@ -1240,8 +1320,29 @@ func ruleErrCodeAccessors(c *chk.Ctx) {
 			continue
 		}
 		okNil, okWrap := false, false
+		allWrap := true
 		for _, r := range ir.Returns(f) {
 			v := ir.ReturnResult(r, 0)
+			// every non-nil result is the receiver itself (whatever its value: undefined codes of
+			// the reserved range included)
+			if !ir.IsNilConst(v) {
+				isRecv := false
+				if mi, ok := v.(*ssa.MakeInterface); ok {
+					inner := mi.X
+					if cv, ok := inner.(*ssa.ChangeType); ok {
+						inner = cv.X
+					}
+					if cv, ok := inner.(*ssa.Convert); ok {
+						inner = cv.X
+					}
+					if _, isP := inner.(*ssa.Parameter); isP {
+						isRecv = true
+					}
+				}
+				if !isRecv {
+					allWrap = false
+				}
+			}
 			isNoErrEdge, truth := false, false
 			for _, cd := range ir.CondsAt(r.Block()) {
 				if x, y, op, ok := ir.Rel(cd); ok && (op == token.EQL || op == token.NEQ) {
@@ -1270,7 +1371,7 @@ func ruleErrCodeAccessors(c *chk.Ctx) {
 				}
 			}
 		}
-		c.Check(okNil && okWrap, "TABLE.errcode", f, "Code.Err", f.Pos(), "nil exactly for NoError; otherwise the receiver itself wrapped as an error", "Code.Err does not return nil exactly for NoError and the unchanged code otherwise")
+		c.Check(okNil && okWrap && allWrap, "TABLE.errcode", f, "Code.Err", f.Pos(), "nil exactly for NoError; otherwise the receiver itself wrapped as an error", "Code.Err does not return nil exactly for NoError and the unchanged code otherwise")
 	}
 }
 
